@@ -567,7 +567,7 @@ Definition nic_deliver (c : config) (st : state) (srcMAC : list Z) (proto : Z) (
      return true, nil }
    and dispatchLoop: for { cont, err := e.dispatch(); if err != nil || !cont { ...; return err } }
    readv fills the buffers in order, so the views are the frame cut at the BufConfig sizes (a
-   frame longer than their sum, 65408 bytes, is truncated by the kernel).  views[0] is the whole
+   frame longer than their sum, 65664 bytes, is truncated by the kernel).  views[0] is the whole
    128-byte buffer when the Ethernet header is read. *)
 Definition BufConfig : list Z := [128; 256; 256; 512; 1024; 2048; 4096; 8192; 16384; 32768].
 Fixpoint split_views (cfg : list Z) (b : list Z) : vv :=
